@@ -122,6 +122,22 @@ def install_model_locks():
       ml = ModelLock(k, reentrant=isinstance(v, type(threading.RLock())))
       setattr(cfg, k, ml)
       _INSTALLED[k] = ml
+    elif isinstance(v, (list, tuple, dict)) and not k.startswith('__'):
+      # locks kept in a module-level container (a pool of stripe locks, a table of per-key locks)
+      items = list(v.items()) if isinstance(v, dict) else list(enumerate(v))
+      if items and any(isinstance(x, _LOCK_TYPES) for _, x in items):
+        repl = {}
+        for i, x in items:
+          if isinstance(x, _LOCK_TYPES):
+            name = '%s[%r]' % (k, i)
+            _INSTALLED[name] = repl[i] = ModelLock(name, reentrant=isinstance(x, type(threading.RLock())))
+        if isinstance(v, dict):
+          v.update(repl)
+        elif isinstance(v, list):
+          for i, ml in repl.items():
+            v[i] = ml
+        else:
+          setattr(cfg, k, tuple(repl.get(i, x) for i, x in items))
   return _INSTALLED
 
 
@@ -335,8 +351,13 @@ def explore_local(make, node, bound, check, granularity, stats):
   """DFS over the whole subtree below `node` (inclusive)."""
   stack = [node]
   while stack:
+    if _HANGS[0] >= MAX_HANGS:
+      stats['capped'] = True      # every hang costs the full timeout: a few are evidence enough (they are reported)
+      break
     nd = stack.pop()
     x = run_node(make, nd, granularity)
+    if x.hang:
+      _HANGS[0] += 1
     stats['executions'] += 1
     stats['points'] += len(x.points)
     stats['max_points'] = max(stats['max_points'], len(x.points))
@@ -346,6 +367,8 @@ def explore_local(make, node, bound, check, granularity, stats):
 
 
 ROOT = ((), 0, None)
+_HANGS = [0]      # per worker process
+MAX_HANGS = 2
 
 
 def drive(ctx, worker, mk_args, bound, res, local_budget=1):
